@@ -7,6 +7,7 @@
 //!
 //! Case lines: `e2e <family> <k=v params...>`; the families of a property are generated for that property only
 //! (`family_of`); each family's file documents its parameters and its ORACLE:
+//!   C03 partitioner (partitioner.rs)
 //!   C06 retry     (retry.rs)      C07 page      (page.rs)     C10 break   (brk.rs)
 //!   C12 route     (route.rs) + tablet (tablet.rs)              C14 evict   (evict.rs)
 //!   C18 timestamp (timestamp.rs) + tsconn (tsconn.rs, one hooked connection)   C20 keyspace (keyspace.rs)
@@ -21,6 +22,7 @@ pub mod common;
 pub mod evict;
 pub mod keyspace;
 pub mod page;
+pub mod partitioner;
 pub mod refresh;
 pub mod retry;
 pub mod route;
@@ -32,6 +34,7 @@ pub mod tsconn;
 /// Which family belongs to which property (a family is generated for that property only).
 pub fn family_of(pid: &str) -> Option<&'static str> {
     match pid {
+        "C03" => Some("partitioner"),
         "C06" => Some("retry"),
         "C07" => Some("page"),
         "C10" => Some("break"),
@@ -51,6 +54,7 @@ pub fn generate(pid: &str, rng: &mut Rng, tier: Tier, emit: &mut dyn FnMut(Strin
         Some("evict") => evict::generate(rng, tier, emit),
         Some("keyspace") => keyspace::generate(rng, tier, emit),
         Some("page") => page::generate(rng, tier, emit),
+        Some("partitioner") => partitioner::generate(rng, tier, emit),
         Some("refresh") => refresh::generate(rng, tier, emit),
         Some("route") => {
             route::generate(rng, tier, emit);
@@ -75,6 +79,7 @@ pub fn run(_pid: &str, case: &str, ctx: &mut Ctx) -> String {
         "evict" => evict::run(&words[2..], ctx),
         "keyspace" => keyspace::run(&words[2..], ctx),
         "page" => page::run(&words[2..], ctx),
+        "partitioner" => partitioner::run(&words[2..], ctx),
         "refresh" => refresh::run(&words[2..], ctx),
         "route" => route::run(&words[2..], ctx),
         "smoke" => smoke::run(&words[2..], ctx),
